@@ -41,7 +41,7 @@ type vxJobFan struct {
 }
 
 type vxFault struct {
-	Component string `json:"component"`         // sensor | rpm | pwmread | pwmwrite | modewrite
+	Component string `json:"component"`         // sensor | rpm | pwmread | pwmwrite | modewrite | moderead
 	Kind      string `json:"kind"`              // error | garbage | ignored
 	Window    int    `json:"window"`            // control-cycle window index after regulation began
 	Persist   bool   `json:"persist,omitempty"` // the fault stays active until the process ends (still active at shutdown)
@@ -248,6 +248,15 @@ func TestVX_daemonChild(t *testing.T) {
 	}
 	points := filepath.Join(job.Dir, "points.log")
 	events := filepath.Join(job.Dir, "events.log")
+	// a desktop session without a matching `who` entry: fan2go's desktop notification (sent on control errors) runs its
+	// look-up helpers and finds nobody to notify
+	fake := filepath.Join(job.Dir, "desktop-bin")
+	os.MkdirAll(fake, 0755)
+	for name, body := range map[string]string{"who": "echo 'vxuser   tty1         2026-01-01 00:00'", "id": "echo 1234", "sudo": "exit 0", "notify-send": "exit 0"} {
+		os.WriteFile(filepath.Join(fake, name), []byte("#!/bin/sh\n"+body+"\n"), 0755)
+	}
+	os.Setenv("PATH", fake+":"+os.Getenv("PATH"))
+	os.Setenv("DISPLAY", ":7")
 	synctest.Test(t, func(t *testing.T) {
 		w := vxBuildWorld(job)
 		w.vxPrepopulate()
@@ -296,6 +305,8 @@ func TestVX_daemonChild(t *testing.T) {
 					return "pwmwrite"
 				case path == d.enable && kind != "read":
 					return "modewrite"
+				case path == d.enable:
+					return "moderead"
 				}
 			}
 			return ""
